@@ -78,7 +78,7 @@ func main() {
 	// ---------------------------------------------------------------- UnprefixedHashes
 	uh := bt.Func("BuildTarget.UnprefixedHashes")
 	indexFn, sep, sliceLow, sliceHigh, wrap, guard := "", "", "", "-", "", ""
-	aliasInit, writesThrough, local, indexVar := false, false, "", "index"
+	aliasInit, writesThrough, local, indexVar, copyFn := false, false, "", "index", ""
 	ast.Inspect(uh.Body, func(n ast.Node) bool {
 		switch x := n.(type) {
 		case *ast.AssignStmt:
@@ -92,6 +92,11 @@ func main() {
 				if sel, ok := x.Rhs[0].(*ast.SelectorExpr); ok && x.Tok == token.DEFINE && sel.Sel.Name == "Hashes" {
 					aliasInit = true
 					local = bt.Src(x.Lhs[0])
+				}
+				// a copy: slices.Clone(target.Hashes), append([]string(nil), target.Hashes...), make+copy …
+				if c, ok := x.Rhs[0].(*ast.CallExpr); ok && x.Tok == token.DEFINE && local == "" && strings.Contains(bt.Src(c), ".Hashes") {
+					local = bt.Src(x.Lhs[0])
+					copyFn = bt.Src(c.Fun)
 				}
 				if ix, ok := x.Lhs[0].(*ast.IndexExpr); ok && x.Tok == token.ASSIGN && bt.Src(ix.X) == local && local != "" {
 					writesThrough = true
@@ -139,6 +144,8 @@ func main() {
 	out.Def("unprefixSliceHigh", "String", xlib.LeanStr(sliceHigh))
 	out.Def("unprefixWrap", "String", xlib.LeanStr(wrap))
 	out.Def("unprefixAliases", "Bool", xlib.LeanBool(aliasInit && writesThrough && returnsLocal))
+	out.Def("unprefixCopies", "String", xlib.LeanStr(copyFn))
+	out.Def("unprefixReturnsLocal", "Bool", xlib.LeanBool(writesThrough && returnsLocal))
 
 	// ---------------------------------------------------------------- checkRuleHashes
 	cr := bs.Func("checkRuleHashes")
